@@ -17,7 +17,7 @@ import (
 // reference to a live name (a container stored inside a container) or a
 // nested list of ints.
 type Arg struct {
-	K int   `json:"k"` // 0 int, 1 string, 2 ref, 3 nested list
+	K int   `json:"k"` // 0 int, 1 string, 2 ref, 3 nested list, 4 ref to slot I (direct), 5 float I+0.5, 6 symbol, 7 keyword
 	I int   `json:"i"`
 	L []int `json:"l,omitempty"`
 }
@@ -36,7 +36,7 @@ type Step struct {
 	A     int       `json:"a"`
 	B     int       `json:"b"`
 	Loose bool      `json:"loose,omitempty"` // operand may be of any type (error paths)
-	T     int       `json:"t"`               // 0 list, 1 vector, 2 bytes
+	T     int       `json:"t"`               // 0 list, 1 vector, 2 bytes, 3 string
 	I     int       `json:"i"`
 	J     int       `json:"j"`
 	Args  []Arg     `json:"args,omitempty"`
@@ -52,6 +52,12 @@ type Step struct {
 	Direct bool `json:"direct,omitempty"`
 	// Again: take the operands the step two positions earlier resolved to.
 	Again bool `json:"again,omitempty"`
+	// Via > 0: the principal operand is not a name but an ELEMENT of a live
+	// holder that fits the operation -- (nth gS i), (aref gV i), (first gS),
+	// (get gM 'k), up to three levels deep.  Via/8 chooses among the fitting
+	// elements (with Direct: of holder slot A, when it has any), Via%8 the
+	// accessor spelling.
+	Via int `json:"via,omitempty"`
 }
 
 type Case struct {
@@ -59,8 +65,15 @@ type Case struct {
 }
 
 var strPool = []string{"x", "yy", "a", "b", "zed"}
-var keyPool = []string{"a", "bb", "ccc", "k1xx", "Bzzzz"}
-var typeNames = []string{"list", "vector", "bytes"}
+
+// keyPool: pairwise different lengths among the first five (so that sorting a
+// key list by length is order-changing); the last two are KEYWORDS -- a
+// keyword is a symbol whose name starts with a colon, so :q and ":q" name one
+// key.  Pools only ever grow at the end: raw indices in stored replays keep
+// their meaning.
+var keyPool = []string{"a", "bb", "ccc", "k1xx", "Bzzzz", ":q", ":key77"}
+var symPool = []string{"p", "qq", "sym", "s4x2", "long-name"}
+var typeNames = []string{"list", "vector", "bytes", "string"}
 
 func mod(x, n int) int {
 	if n <= 0 {
@@ -87,6 +100,10 @@ func kVecOrBytes(o obj) bool {
 	return kVec(o) || kBytes(o)
 }
 func kSeqOrBytes(o obj) bool { return kSeq(o) || kBytes(o) }
+func kSliceable(o obj) bool {
+	_, isStr := o.(mStr)
+	return kSeq(o) || kBytes(o) || isStr
+}
 func kMapOrNil(o obj) bool   { return kMap(o) || isNilObj(o) }
 func kByteSeqish(o obj) bool {
 	if kBytes(o) {
@@ -125,6 +142,9 @@ func (h *heap) pick(k kind, raw int, loose bool) int {
 		if o == nil {
 			continue
 		}
+		if _, isArr := o.(*mArr); isArr && h.noArr {
+			continue
+		}
 		all = append(all, i)
 		if k(o) {
 			fit = append(fit, i)
@@ -155,18 +175,160 @@ func (h *heap) pick(k kind, raw int, loose bool) int {
 
 func gname(i int) string { return "g" + strconv.Itoa(i) }
 
+// viaCands lists the elements of kind k reachable THROUGH the live holders
+// (only holder slot `only` when >= 0), up to three levels deep, in a fixed
+// order.
+func (h *heap) viaCands(k kind, only int) []*via {
+	var out []*via
+	var walk func(slot int, o obj, path []pstep)
+	walk = func(slot int, o obj, path []pstep) {
+		if len(out) >= 64 {
+			return
+		}
+		visit := func(p pstep, e obj) {
+			np := append(append([]pstep(nil), path...), p)
+			if k(e) {
+				switch e.(type) {
+				case *mSeq, *mBytes, *mMap, mStr:
+					out = append(out, &via{slot: slot, path: np})
+				}
+			}
+			if _, isArr := e.(*mArr); isArr {
+				return
+			}
+			if len(np) < 3 {
+				walk(slot, e, np)
+			}
+		}
+		switch x := o.(type) {
+		case *mSeq:
+			for i, e := range x.cells() {
+				visit(pstep{idx: i}, e)
+			}
+		case *mArr:
+			for i, e := range x.cells {
+				visit(pstep{idx: i}, e)
+			}
+		case *mMap:
+			for _, key := range sortedKeys(x) {
+				visit(pstep{key: key, isKey: true}, x.ents[key].v)
+			}
+		}
+	}
+	for i, o := range h.g {
+		if o != nil && (only < 0 || only == i) {
+			walk(i, o, nil)
+		}
+	}
+	return out
+}
+
+// renderVia spells the path as nested accessor calls.
+func (h *heap) renderVia(v *via) string {
+	e := gname(v.slot)
+	o := h.g[v.slot]
+	for _, p := range v.path {
+		switch x := o.(type) {
+		case *mSeq:
+			opts := []string{fmt.Sprintf("(nth %s %d)", e, p.idx)}
+			if x.vec {
+				opts = append(opts, fmt.Sprintf("(aref %s %d)", e, p.idx))
+			}
+			if p.idx == 0 {
+				opts = append(opts, "(first "+e+")")
+				if !x.vec {
+					opts = append(opts, "(car "+e+")")
+				}
+			}
+			if p.idx == 1 {
+				opts = append(opts, "(second "+e+")")
+			}
+			e = opts[mod(p.acc, len(opts))]
+			o = x.cells()[p.idx]
+		case *mArr:
+			// row-major position -> one index per dimension
+			idx := make([]string, len(x.dims))
+			rem := p.idx
+			for d := len(x.dims) - 1; d >= 0; d-- {
+				idx[d] = strconv.Itoa(rem % x.dims[d])
+				rem /= x.dims[d]
+			}
+			e = "(aref " + e + " " + strings.Join(idx, " ") + ")"
+			o = x.cells[p.idx]
+		case *mMap:
+			e = "(get " + e + " " + renderKey(ckey{name: p.key, sym: mod(p.acc, 2) == 0}) + ")"
+			o = x.ents[p.key].v
+		}
+	}
+	return e
+}
+
+// holders counts the distinct live containers (sequence windows, maps) that
+// hold target directly as an element, and reports the holders' ids.
+func (h *heap) holders(target obj) []int {
+	_, order := h.refs()
+	var ids []int
+	for _, o := range order {
+		held := false
+		switch x := o.(type) {
+		case *mSeq:
+			for _, c := range x.cells() {
+				if c == target {
+					held = true
+				}
+			}
+		case *mArr:
+			for _, c := range x.cells {
+				if c == target {
+					held = true
+				}
+			}
+		case *mMap:
+			for _, e := range x.ents {
+				if e.v == target {
+					held = true
+				}
+			}
+		}
+		if held {
+			id, _, _ := objIDOf(o)
+			ids = append(ids, id)
+		}
+	}
+	return ids
+}
+
 func (h *heap) resolveArg(a Arg) carg {
-	switch mod(a.K, 4) {
+	switch mod(a.K, 8) {
 	case 0:
 		return carg{kind: 0, i: a.I}
 	case 1:
 		return carg{kind: 1, s: strPool[mod(a.I, len(strPool))]}
 	case 2:
+		// (a multi-dimensional array is never stored inside another value:
+		// the key functions of the sorts could not measure it)
+		h.noArr = true
 		s := h.pick(kAny, a.I, true)
+		h.noArr = false
 		if s < 0 {
 			return carg{kind: 0, i: a.I}
 		}
 		return carg{kind: 2, i: s}
+	case 4:
+		// the value of one particular slot (scenarios store the container
+		// they have just made)
+		if s := mod(a.I, NSlots); h.g[s] != nil {
+			if _, isArr := h.g[s].(*mArr); !isArr {
+				return carg{kind: 2, i: s}
+			}
+		}
+		return carg{kind: 0, i: a.I}
+	case 5:
+		return carg{kind: 5, i: a.I}
+	case 6:
+		return carg{kind: 6, s: symPool[mod(a.I, len(symPool))]}
+	case 7:
+		return carg{kind: 7, s: symPool[mod(a.I, len(symPool))]}
 	default:
 		return carg{kind: 3, l: append([]int(nil), a.L...)}
 	}
@@ -180,6 +342,15 @@ func renderArg(a carg, quoted bool) string {
 		return strconv.Quote(a.s)
 	case 2:
 		return gname(a.i)
+	case 5:
+		return strconv.FormatFloat(float64(a.i)+0.5, 'g', -1, 64)
+	case 6:
+		if quoted {
+			return a.s
+		}
+		return "'" + a.s
+	case 7:
+		return ":" + a.s
 	default:
 		parts := make([]string, len(a.l))
 		for i, x := range a.l {
@@ -204,6 +375,9 @@ func renderKey(k ckey) string {
 		return "7"
 	}
 	if k.sym {
+		if strings.HasPrefix(k.name, ":") {
+			return k.name // a keyword evaluates to itself
+		}
 		return "'" + k.name
 	}
 	return strconv.Quote(k.name)
@@ -224,16 +398,25 @@ var keyFns = []string{
 	// total: ints by value, symbols and strings by the length of their text,
 	// containers by their length -- so sorting a key list, a list of strings
 	// or a list of containers really permutes it
-	"(lambda (x) (if (int? x) x (if (symbol? x) (length (to-string x)) (length x))))",
-	"(lambda (x) (- 0 (if (int? x) x (if (symbol? x) (length (to-string x)) (length x)))))",
+	"(lambda (x) (if (number? x) x (if (symbol? x) (length (to-string x)) (length x))))",
+	"(lambda (x) (- 0 (if (number? x) x (if (symbol? x) (length (to-string x)) (length x)))))",
 }
 var predNames = []string{"<", ">"}
 
-func anyNonInt(cells []obj) bool {
+// anyNonNum: without a key function < only orders numbers.
+func anyNonNum(cells []obj) bool {
 	for _, c := range cells {
-		if _, ok := c.(mInt); !ok {
+		if !isNum(c) {
 			return true
 		}
+	}
+	return false
+}
+
+func isNum(o obj) bool {
+	switch o.(type) {
+	case mInt, mFloat:
+		return true
 	}
 	return false
 }
@@ -262,7 +445,7 @@ func principalKind(op string, t int) (kind, string) {
 	case "append-bytes", "append-bytes!":
 		return kBytes, "to-bytes"
 	case "concat":
-		if t == 2 {
+		if t >= 2 {
 			return kByteSeqish, "to-bytes"
 		}
 		return kSeq, "vector"
@@ -271,7 +454,7 @@ func principalKind(op string, t int) (kind, string) {
 	case "reverse", "map", "select", "reject", "zip", "insert-index", "insert-sorted", "rest", "nth", "stable-sort":
 		return kSeq, "vector"
 	case "slice":
-		return kSeqOrBytes, "vector"
+		return kSliceable, "vector"
 	case "assoc", "dissoc", "get":
 		return kMapOrNil, "sorted-map"
 	case "keys", "assoc!", "dissoc!":
@@ -285,13 +468,13 @@ func principalKind(op string, t int) (kind, string) {
 	return nil, ""
 }
 
-var creates = map[string]bool{"list": true, "vector": true, "quote": true, "sorted-map": true, "make-sequence": true}
+var creates = map[string]bool{"list": true, "vector": true, "quote": true, "sorted-map": true, "make-sequence": true, "array2": true}
 
 // resolve turns st into a concrete operation against the current model state
 // h (hypothesis 0; every surviving hypothesis agrees on types, lengths and
 // contents, which is all resolution looks at).
 func resolve(st Step, h *heap) *cop {
-	c := &cop{op: st.Op, dst: -1, a: -1, b: -1, t: mod(st.T, 3), fn: mod(st.Fn, 3), pred: mod(st.Pred, 2), keyfn: mod(st.KeyFn, 3)}
+	c := &cop{op: st.Op, dst: -1, a: -1, b: -1, t: mod(st.T, 4), fn: mod(st.Fn, 3), pred: mod(st.Pred, 2), keyfn: mod(st.KeyFn, 3)}
 	if st.Dst >= 0 {
 		c.dst = mod(st.Dst, NSlots)
 	}
@@ -338,7 +521,40 @@ func resolve(st Step, h *heap) *cop {
 		if c.t == 2 {
 			c.t = 1
 		}
+		if c.t == 3 {
+			c.t = 0
+		}
 		return "'" + typeNames[c.t]
+	}
+	// pickA chooses the principal operand: a live name of kind k, or (Via) an
+	// element of kind k reached through a live holder.
+	pickA := func(k kind) {
+		c.a = h.pick(k, st.A, st.Loose)
+		if st.Via <= 0 || st.Loose {
+			return
+		}
+		var cands []*via
+		if st.Direct {
+			cands = h.viaCands(k, mod(st.A, NSlots))
+		}
+		if len(cands) == 0 {
+			cands = h.viaCands(k, -1)
+		}
+		if len(cands) == 0 {
+			return
+		}
+		v := cands[mod(st.Via/8, len(cands))]
+		for i := range v.path {
+			v.path[i].acc = st.Via%8 + i
+		}
+		c.via, c.a = v, -1
+	}
+	A := func() obj { return h.opA(c) }
+	nameA := func() string {
+		if c.via != nil {
+			return h.renderVia(c.via)
+		}
+		return gname(c.a)
 	}
 	renderArgs := func() string {
 		parts := make([]string, len(c.args))
@@ -377,6 +593,22 @@ func resolve(st Step, h *heap) *cop {
 			parts[i] = renderArg(c.args[i], true)
 		}
 		c.form = "'(" + strings.Join(parts, " ") + ")"
+	case "array2":
+		// a multi-dimensional array bound by the HOST (the language cannot
+		// build one): 2 x cols, or 1 x 2 x cols, over the rendered values
+		cols := 1 + mod(st.J, 3)
+		c.dims = []int{2, cols}
+		if mod(st.I, 4) == 0 {
+			c.dims = []int{1, 2, cols}
+		}
+		for len(c.args) < 2*cols {
+			c.args = append(c.args, carg{kind: 0, i: len(c.args)})
+		}
+		c.args = c.args[:2*cols]
+		if c.dst < 0 {
+			c.dst = mod(st.A, NSlots)
+		}
+		c.form = "(list" + renderArgs() + ")"
 	case "sorted-map":
 		n := len(st.Keys)
 		if len(c.args) < n {
@@ -408,31 +640,31 @@ func resolve(st Step, h *heap) *cop {
 		c.form = gname(c.a)
 	case "append":
 		if c.t == 2 {
-			c.a = h.pick(kBytes, st.A, st.Loose)
+			pickA(kBytes)
 			byteArgs()
 		} else {
-			c.a = h.pick(kSeq, st.A, st.Loose)
+			pickA(kSeq)
 		}
-		c.form = "(append " + T() + " " + gname(c.a) + renderArgs() + ")"
+		c.form = "(append " + T() + " " + nameA() + renderArgs() + ")"
 	case "append-bytes", "append-bytes!":
-		c.a = h.pick(kBytes, st.A, st.Loose)
+		pickA(kBytes)
 		if mod(st.Fn, 2) == 0 {
 			c.useStr = true
 			c.str = strPool[mod(st.I, len(strPool))]
-			c.form = "(" + c.op + " " + gname(c.a) + " " + strconv.Quote(c.str) + ")"
+			c.form = "(" + c.op + " " + nameA() + " " + strconv.Quote(c.str) + ")"
 		} else {
 			c.b = h.pick(kByteSeqish, st.B, st.Loose || st.Bad == 5)
-			c.form = "(" + c.op + " " + gname(c.a) + " " + gname(c.b) + ")"
+			c.form = "(" + c.op + " " + nameA() + " " + gname(c.b) + ")"
 		}
 	case "concat":
 		c.nops = 1 + mod(st.J, 2)
 		k := kind(kSeq)
-		if c.t == 2 {
+		if c.t >= 2 {
 			k = kByteSeqish
 		}
-		c.a = h.pick(k, st.A, st.Loose)
+		pickA(k)
 		c.b = h.pick(k, st.B, st.Loose)
-		c.form = "(concat " + T() + " " + gname(c.a)
+		c.form = "(concat " + T() + " " + nameA()
 		if c.nops == 2 {
 			c.form += " " + gname(c.b)
 		}
@@ -440,40 +672,40 @@ func resolve(st Step, h *heap) *cop {
 	case "cons":
 		needArg()
 		c.args = c.args[:1]
-		c.a = h.pick(kList, st.A, st.Loose)
-		c.form = "(cons " + renderArg(c.args[0], false) + " " + gname(c.a) + ")"
+		pickA(kList)
+		c.form = "(cons " + renderArg(c.args[0], false) + " " + nameA() + ")"
 	case "reverse":
-		c.a = h.pick(kSeq, st.A, st.Loose)
-		c.form = "(reverse " + T2() + " " + gname(c.a) + ")"
+		pickA(kSeq)
+		c.form = "(reverse " + T2() + " " + nameA() + ")"
 	case "map":
-		c.a = h.pick(kSeq, st.A, st.Loose)
-		c.form = "(map " + T2() + " " + mapFns[c.fn] + " " + gname(c.a) + ")"
+		pickA(kSeq)
+		c.form = "(map " + T2() + " " + mapFns[c.fn] + " " + nameA() + ")"
 	case "select", "reject":
-		c.a = h.pick(kSeq, st.A, st.Loose)
-		c.form = "(" + c.op + " " + T2() + " " + predFns[c.fn] + " " + gname(c.a) + ")"
+		pickA(kSeq)
+		c.form = "(" + c.op + " " + T2() + " " + predFns[c.fn] + " " + nameA() + ")"
 	case "zip":
-		c.a = h.pick(kSeq, st.A, st.Loose)
+		pickA(kSeq)
 		c.b = h.pick(kSeq, st.B, st.Loose)
-		c.form = "(zip " + T2() + " " + gname(c.a) + " " + gname(c.b) + ")"
+		c.form = "(zip " + T2() + " " + nameA() + " " + gname(c.b) + ")"
 	case "insert-index":
 		needArg()
 		c.args = c.args[:1]
-		c.a = h.pick(kSeq, st.A, st.Loose)
-		n, _ := lenOf(h.g[c.a])
-		c.i = mod(st.I, n+1)
+		pickA(kSeq)
+		n, _ := lenOf(A())
+		c.i = mod(st.I, n+1) // I = -1: at the end
 		if st.Bad == 3 {
 			c.i = n + 1
 		}
-		c.form = fmt.Sprintf("(insert-index %s %s %d %s)", T2(), gname(c.a), c.i, renderArg(c.args[0], false))
+		c.form = fmt.Sprintf("(insert-index %s %s %d %s)", T2(), nameA(), c.i, renderArg(c.args[0], false))
 	case "insert-sorted":
 		needArg()
 		c.args = c.args[:1]
-		c.a = h.pick(kSeq, st.A, st.Loose)
-		srcForm := gname(c.a)
-		if s, ok := asSeq(h.g[c.a]); ok {
+		pickA(kSeq)
+		srcForm := nameA()
+		if s, ok := asSeq(A()); ok {
 			item := h.argObj(c.args[0], false)
 			if c.keyfn == 0 {
-				if _, isInt := item.(mInt); !isInt || anyNonInt(s.cells()) {
+				if !isNum(item) || anyNonNum(s.cells()) {
 					c.keyfn = 1
 				}
 			}
@@ -490,77 +722,77 @@ func resolve(st Step, h *heap) *cop {
 			}
 			if !mono {
 				c.wrap = true
-				srcForm = "(stable-sort " + predNames[c.pred] + " (concat 'list " + gname(c.a) + ")" + optFn(keyFns[c.keyfn]) + ")"
+				srcForm = "(stable-sort " + predNames[c.pred] + " (concat 'list " + nameA() + ")" + optFn(keyFns[c.keyfn]) + ")"
 			}
 		}
 		c.form = "(insert-sorted " + T2() + " " + srcForm + " " + predNames[c.pred] + " " + renderArg(c.args[0], false) + optFn(keyFns[c.keyfn]) + ")"
 	case "slice":
-		c.a = h.pick(kSeqOrBytes, st.A, st.Loose)
-		if c.t == 2 && !st.Loose && mod(st.Fn, 4) != 0 {
+		pickA(kSliceable)
+		if c.t == 2 && !st.Loose && mod(st.Fn, 4) != 0 && c.via == nil {
 			// bytes -> bytes views: favour a bytes source
 			if b := h.pick(kBytes, st.A, false); b >= 0 && kBytes(h.g[b]) {
 				c.a = b
 			}
 		}
-		n, _ := lenOf(h.g[c.a])
+		n, _ := lenOf(A())
 		c.i = mod(st.I, n+1)
 		c.j = c.i + mod(st.J, n-c.i+1)
 		if st.Bad == 1 {
 			c.j = n + 1 + mod(st.J, 2)
 		}
-		c.form = fmt.Sprintf("(slice %s %s %d %d)", T(), gname(c.a), c.i, c.j)
+		c.form = fmt.Sprintf("(slice %s %s %d %d)", T(), nameA(), c.i, c.j)
 	case "cdr":
-		c.a = h.pick(kList, st.A, st.Loose)
-		c.form = "(cdr " + gname(c.a) + ")"
+		pickA(kList)
+		c.form = "(cdr " + nameA() + ")"
 	case "rest":
-		c.a = h.pick(kSeq, st.A, st.Loose)
-		c.form = "(rest " + gname(c.a) + ")"
+		pickA(kSeq)
+		c.form = "(rest " + nameA() + ")"
 	case "assoc":
 		needArg()
 		c.args, c.keys = c.args[:1], c.keys[:1]
-		c.a = h.pick(kMapOrNil, st.A, st.Loose)
-		c.form = "(assoc " + gname(c.a) + " " + renderKey(c.keys[0]) + " " + renderArg(c.args[0], false) + ")"
+		pickA(kMapOrNil)
+		c.form = "(assoc " + nameA() + " " + renderKey(c.keys[0]) + " " + renderArg(c.args[0], false) + ")"
 	case "dissoc":
 		c.keys = c.keys[:1]
-		c.a = h.pick(kMapOrNil, st.A, st.Loose)
-		c.form = "(dissoc " + gname(c.a) + " " + renderKey(c.keys[0]) + ")"
+		pickA(kMapOrNil)
+		c.form = "(dissoc " + nameA() + " " + renderKey(c.keys[0]) + ")"
 	case "keys":
-		c.a = h.pick(kMap, st.A, st.Loose)
-		c.form = "(keys " + gname(c.a) + ")"
+		pickA(kMap)
+		c.form = "(keys " + nameA() + ")"
 	case "nth":
-		c.a = h.pick(kSeq, st.A, st.Loose)
-		n, _ := lenOf(h.g[c.a])
+		pickA(kSeq)
+		n, _ := lenOf(A())
 		c.i = mod(st.I, n+2)
 		if st.Bad == 4 {
 			c.i = -1
 		}
-		c.form = fmt.Sprintf("(nth %s %d)", gname(c.a), c.i)
+		c.form = fmt.Sprintf("(nth %s %d)", nameA(), c.i)
 	case "get":
 		c.keys = c.keys[:1]
-		c.a = h.pick(kMapOrNil, st.A, st.Loose)
-		c.form = "(get " + gname(c.a) + " " + renderKey(c.keys[0]) + ")"
+		pickA(kMapOrNil)
+		c.form = "(get " + nameA() + " " + renderKey(c.keys[0]) + ")"
 	case "assoc!":
 		needArg()
 		c.args, c.keys = c.args[:1], c.keys[:1]
-		c.a = h.pick(kMap, st.A, st.Loose)
-		avoidCycle(h.g[c.a])
-		c.form = "(assoc! " + gname(c.a) + " " + renderKey(c.keys[0]) + " " + renderArg(c.args[0], false) + ")"
+		pickA(kMap)
+		avoidCycle(A())
+		c.form = "(assoc! " + nameA() + " " + renderKey(c.keys[0]) + " " + renderArg(c.args[0], false) + ")"
 	case "dissoc!":
 		c.keys = c.keys[:1]
-		c.a = h.pick(kMap, st.A, st.Loose)
-		c.form = "(dissoc! " + gname(c.a) + " " + renderKey(c.keys[0]) + ")"
+		pickA(kMap)
+		c.form = "(dissoc! " + nameA() + " " + renderKey(c.keys[0]) + ")"
 	case "append!":
-		c.a = h.pick(kVecOrBytes, st.A, st.Loose)
-		if c.t == 2 && !st.Loose {
+		pickA(kVecOrBytes)
+		if c.t == 2 && !st.Loose && c.via == nil {
 			if b := h.pick(kBytes, st.A, false); b >= 0 && kBytes(h.g[b]) {
 				c.a = b
 			}
 		}
-		if kBytes(h.g[c.a]) {
+		if kBytes(A()) {
 			byteArgs()
 		}
-		avoidCycle(h.g[c.a])
-		c.form = "(append! " + gname(c.a) + renderArgs() + ")"
+		avoidCycle(A())
+		c.form = "(append! " + nameA() + renderArgs() + ")"
 	case "call":
 		needArg()
 		c.args = c.args[:1]
@@ -568,13 +800,15 @@ func resolve(st Step, h *heap) *cop {
 		if c.keyfn == 0 {
 			c.keyfn = 1 // arguments may be anything: always a total key function
 		}
+		h.noArr = true // ... except an array of several dimensions, which has no length
+		defer func() { h.noArr = false }()
 		k := kind(kSeq)
 		if c.i <= 2 {
 			k = kList
 		}
-		c.a = h.pick(k, st.A, st.Loose)
+		pickA(k)
 		c.b = h.pick(kAny, st.B, true)
-		if !st.Loose && !k(h.g[c.a]) {
+		if !st.Loose && !k(A()) {
 			c.op = "list"
 			c.form = "(list" + renderArgs() + ")"
 			break
@@ -588,40 +822,42 @@ func resolve(st Step, h *heap) *cop {
 			"(lambda (&optional a b &rest xs) (list a b " + srt("xs") + "))",
 			"(lambda (x &optional y) (if (or (list? x) (vector? x)) " + srt("x") + " x))",
 		}[c.j]
-		A, B, V := gname(c.a), gname(c.b), renderArg(c.args[0], false)
+		sA, sB, sV := nameA(), gname(c.b), renderArg(c.args[0], false)
 		switch c.i {
 		case 0:
-			c.form = "(apply " + F + " " + A + ")"
+			c.form = "(apply " + F + " " + sA + ")"
 		case 1:
-			c.form = "(apply " + F + " " + V + " " + A + ")"
+			c.form = "(apply " + F + " " + sV + " " + sA + ")"
 		case 2:
-			c.form = "(unpack " + F + " " + A + ")"
+			c.form = "(unpack " + F + " " + sA + ")"
 		case 3:
-			c.form = "(funcall " + F + " " + A + ")"
+			c.form = "(funcall " + F + " " + sA + ")"
 		case 4:
-			c.form = "(funcall " + F + " " + A + " " + V + " " + B + ")"
+			c.form = "(funcall " + F + " " + sA + " " + sV + " " + sB + ")"
 		case 5:
-			c.form = "(map 'list " + F + " " + A + ")"
+			c.form = "(map 'list " + F + " " + sA + ")"
 		case 6:
-			c.form = "(thread-last " + A + " (funcall " + F + "))"
+			c.form = "(thread-last " + sA + " (funcall " + F + "))"
 		default:
-			c.form = "(foldl (lambda (acc x) (append! acc x)) (vector) " + A + ")"
+			c.form = "(foldl (lambda (acc x) (append! acc x)) (vector) " + sA + ")"
 		}
 	case "stable-sort":
-		c.a = h.pick(kSeq, st.A, st.Loose)
-		if s, ok := asSeq(h.g[c.a]); ok && c.keyfn == 0 && anyNonInt(s.cells()) {
+		pickA(kSeq)
+		if s, ok := asSeq(A()); ok && c.keyfn == 0 && anyNonNum(s.cells()) {
 			// without a key function < fails on the first non-number and
 			// leaves the target half sorted; not a case the property speaks
 			// about
 			c.keyfn = 1
 		}
-		c.form = "(stable-sort " + predNames[c.pred] + " " + gname(c.a) + optFn(keyFns[c.keyfn]) + ")"
+		c.form = "(stable-sort " + predNames[c.pred] + " " + nameA() + optFn(keyFns[c.keyfn]) + ")"
 	default:
 		// unknown op name in a hand-edited replay: treat as a list create
 		c.op = "list"
 		c.form = "(list" + renderArgs() + ")"
 	}
-	if c.dst >= 0 {
+	if c.op == "array2" {
+		c.src = "; host: bind " + gname(c.dst) + " to lisp.Array(dims " + dimsText(c.dims) + ") over the cells of\n" + c.form
+	} else if c.dst >= 0 {
 		c.src = "(set '" + gname(c.dst) + " " + c.form + ")"
 	} else {
 		c.src = c.form
@@ -694,6 +930,10 @@ const maxHyps = 48
 var mutatingOps = map[string]bool{"call": true, "assoc!": true, "dissoc!": true, "append!": true, "append-bytes!": true, "stable-sort": true}
 var appendOps = map[string]bool{"append": true, "append-bytes": true}
 
+// extendOps build a longer value from their principal operand: the operations
+// through which a write could land in the operand's spare capacity.
+var extendOps = map[string]bool{"append": true, "append-bytes": true, "cons": true, "insert-index": true, "insert-sorted": true, "concat": true, "append!": true, "append-bytes!": true}
+
 // expand applies c to h under every combination of open choices.
 func expand(h *heap, c *cop) []hyp {
 	var out []hyp
@@ -731,6 +971,8 @@ func checkHistory(cs Case, ctx *vcommon.Ctx) *vcommon.Failure {
 		return vcommon.Failf(key, "%s\nhistory:\n%s", msg, script(srcs))
 	}
 
+	origin := map[int]string{}   // object id -> the operation that produced it
+	extended := map[int]int{}    // object id -> successful extend operations from it
 	cops := make([]*cop, len(cs.Steps))
 	for si, st := range cs.Steps {
 		if si >= 60 {
@@ -758,8 +1000,66 @@ func checkHistory(cs Case, ctx *vcommon.Ctx) *vcommon.Failure {
 		// classification against the pre-state (hypothesis 0)
 		pending := map[string]bool{}
 		var target obj
-		if c.a >= 0 {
-			target = h0.g[c.a]
+		if c.a >= 0 || c.via != nil {
+			target = h0.opA(c)
+		}
+		targetID, _, targetIsObj := objIDOf(target)
+		if c.via != nil {
+			pending["via-operand"] = true
+			pending[c.op+"-via-holder"] = true
+		}
+		if extendOps[c.op] && targetIsObj {
+			if org, ok := origin[targetID]; ok {
+				pending["extend-from/"+org] = true
+				if extended[targetID] >= 1 {
+					pending["second-extend-from/"+org] = true
+				}
+			}
+		}
+		if c.op == "stable-sort" && targetIsObj {
+			if org, ok := origin[targetID]; ok {
+				pending["stable-sort-of-result-of/"+org] = true
+			}
+		}
+		if mutatingOps[c.op] && c.op != "call" && targetIsObj {
+			hs := h0.holders(target)
+			if len(hs) >= 1 {
+				pending[c.op+"-on-nested"] = true
+			}
+			if len(hs) >= 2 {
+				pending[c.op+"-on-nested-in-2+-holders"] = true
+			}
+			for _, hid := range hs {
+				if org, ok := origin[hid]; ok && !creates[org] && org != "list-0/1" && org != "vector-0/1" {
+					pending["mutate-nested-held-by-result-of/"+org] = true
+				}
+			}
+		}
+		for _, a := range c.args {
+			switch a.kind {
+			case 5:
+				pending["atom/float"] = true
+			case 6:
+				pending["atom/symbol"] = true
+			case 7:
+				pending["atom/keyword"] = true
+			}
+		}
+		for _, k := range c.keys {
+			if strings.HasPrefix(k.name, ":") && (c.op == "sorted-map" || c.op == "assoc" || c.op == "assoc!" || c.op == "dissoc" || c.op == "dissoc!" || c.op == "get") {
+				pending["keyword-key"] = true
+			}
+		}
+		if c.t == 3 && (c.op == "concat" || c.op == "slice") {
+			pending["string-result"] = true
+		}
+		if _, isArr := target.(*mArr); isArr {
+			pending["multi-dim-array-as-operand"] = true
+		}
+		if c.via != nil {
+			if _, isArr := h0.g[c.via.slot].(*mArr); isArr {
+				pending["element-of-multi-dim-array-as-operand"] = true
+			}
 		}
 		isMut, isApp := mutatingOps[c.op], appendOps[c.op]
 		ntHere := ""
@@ -845,7 +1145,26 @@ func checkHistory(cs Case, ctx *vcommon.Ctx) *vcommon.Failure {
 		if tf := os.Getenv("C11_TRACE"); tf != "" {
 			os.WriteFile(tf, []byte(script(srcs)+"\n"), 0o644)
 		}
-		o := rt.Load(c.src)
+		var o vcommon.Outcome
+		if c.op == "array2" {
+			// the cells are evaluated by the interpreter (so references are
+			// the live objects), the array is built and bound by the host
+			o = rt.Load(c.form)
+			if !o.IsErr && !o.Panic {
+				dims := make([]*lisp.LVal, len(c.dims))
+				for i, d := range c.dims {
+					dims[i] = lisp.Int(d)
+				}
+				cells := append([]*lisp.LVal(nil), o.Val.Cells...)
+				arr := lisp.Array(lisp.QExpr(dims), cells)
+				if arr.Type != lisp.LError {
+					rt.Env.PutGlobal(lisp.Symbol(gname(c.dst)), arr)
+				}
+				o = rt.Observe(arr)
+			}
+		} else {
+			o = rt.Load(c.src)
+		}
 		if o.Panic {
 			return fail("internal-panic/"+c.op, "step %d %s recovered a Go panic: %s", si, c.src, o.Msg)
 		}
@@ -950,6 +1269,23 @@ func checkHistory(cs Case, ctx *vcommon.Ctx) *vcommon.Failure {
 			break
 		}
 		if !o.IsErr {
+			if extendOps[c.op] && targetIsObj {
+				extended[targetID]++
+			}
+			if c.dst >= 0 {
+				if id, _, ok := objIDOf(hyps[0].g[c.dst]); ok {
+					if _, seen := origin[id]; !seen {
+						org := c.op
+						if (org == "list" || org == "vector") && len(c.args) <= 1 {
+							org += "-0/1"
+						}
+						origin[id] = org
+					}
+				}
+			}
+			if (c.op == "append!" || c.op == "append-bytes!") && targetIsObj {
+				origin[targetID] = c.op
+			}
 			for cl := range pending {
 				classes[cl] = true
 			}
